@@ -727,7 +727,8 @@ impl VecModel {
             unsafe { (*envp).faults.clear() };
         }
         let cov = if self.mode == VMode::Faults && world.diverged && (1..=3).contains(&world.outcome) { 1u64 << (world.outcome - 1) } else { 0 };
-        let mut out = RunOut { key: world.key(), enabled: Vec::new(), nreq_last: 0, terminal: world.diverged, violations: Vec::new(), cov, outcome: world.outcome };
+        let phase: u128 = if self.mode == VMode::Faults { (n + 1 >= self.max_depth) as u128 } else { 0 };
+        let mut out = RunOut { key: world.key() ^ phase.wrapping_mul(0x9e3779b97f4a7c15f39cc0605cedc835), enabled: Vec::new(), nreq_last: 0, terminal: world.diverged, violations: Vec::new(), cov, outcome: world.outcome };
         if want_enabled && !world.diverged {
             out.enabled = self.enabled::<E, V, S>(&world, n, h.cfg.container);
         }
